@@ -426,6 +426,67 @@ func boundaryCorpus() []corpusCase {
 			}
 		}
 	}
+	// --- consensus: each compact array of a recovery message at and over the 255 cap; PrepareRequest hashes ---
+	for which := 1; which <= 2; which++ {
+		for _, n := range []int{255, 256} {
+			sw := io.NewBufBinWriter()
+			sw.WriteB(0x41)
+			sw.WriteU32LE(1)
+			sw.WriteB(0)
+			sw.WriteB(0)
+			sw.WriteVarUint(0) // change views
+			sw.WriteB(0)
+			sw.WriteVarUint(0) // no preparation hash
+			if which == 1 {
+				sw.WriteVarUint(uint64(n))
+				for i := 0; i < n; i++ {
+					sw.WriteB(byte(i))
+					sw.WriteVarBytes(nil)
+				}
+				sw.WriteVarUint(0)
+			} else {
+				sw.WriteVarUint(0)
+				sw.WriteVarUint(uint64(n))
+				for i := 0; i < n; i++ {
+					sw.WriteB(0)
+					sw.WriteB(byte(i))
+					sw.WriteBytes(make([]byte, 64))
+					sw.WriteVarBytes(nil)
+				}
+			}
+			add(rawCase("consensus0", sw.Bytes()))
+		}
+	}
+	for _, n := range []int{block.MaxTransactionsPerBlock, block.MaxTransactionsPerBlock + 1} {
+		sw := io.NewBufBinWriter()
+		sw.WriteB(0x20)
+		sw.WriteU32LE(1)
+		sw.WriteB(0)
+		sw.WriteB(0)
+		sw.WriteU32LE(0)
+		sw.WriteBytes(make([]byte, 32))
+		sw.WriteU64LE(1)
+		sw.WriteU64LE(2)
+		sw.WriteVarUint(uint64(n))
+		sw.WriteBytes(make([]byte, 32*n))
+		add(rawCase("consensus0", sw.Bytes()))
+	}
+	// --- AppExecResult: 2048 / 2049 stack items; notification whose state is a Struct; MerkleBlock flag bytes ---
+	for _, n := range []int{stackitem.MaxDeserialized, stackitem.MaxDeserialized + 1} {
+		add(rawCase("aer", cat(make([]byte, 32), []byte{1, 1}, make([]byte, 8), minimalVarUint(uint64(n)), make([]byte, n), []byte{0, 0})))
+	}
+	add(rawCase("notification", cat(make([]byte, 20), []byte{1, 'e'}, mustHex("4102200121020100"))))
+	add(rawCase("notification", cat(make([]byte, 20), []byte{1, 'e'}, mustHex("4002200121020100"))))
+	add(rawCase("notification", cat(make([]byte, 20), []byte{1, 'e'}, mustHex("2101"))))
+	for _, p := range [][2]int{{0, 0}, {0, 1}, {8, 1}, {8, 2}, {9, 2}, {9, 3}, {1, 1}, {1, 2}} {
+		w := io.NewBufBinWriter()
+		w.WriteBytes(headerBytes(false))
+		w.WriteVarUint(uint64(p[0]))
+		w.WriteVarUint(uint64(p[0]))
+		w.WriteBytes(make([]byte, 32*p[0]))
+		w.WriteVarBytes(make([]byte, p[1]))
+		add(rawCase("p2p.merkleblock", w.Bytes()))
+	}
 	// --- consensus: recovery message arrays at and over the 255 cap ---
 	for _, n := range []int{255, 256} {
 		sw := io.NewBufBinWriter()
